@@ -146,9 +146,12 @@ func (m *Metrics) UpdateCountryStats(addr string, proxyType string, natType stri
 func (m *Metrics) LoadGeoipDatabases(geoipDB string, geoip6DB string) error {
 
 	// Load geoip databases
-	var err error
 	log.Println("Loading geoip databases")
-	m.geoipdb, err = geoip.New(geoipDB, geoip6DB)
+	db, err := geoip.New(geoipDB, geoip6DB)
+	// polls read geoipdb under the metrics lock; a SIGHUP reload arrives while they are served
+	m.lock.Lock()
+	m.geoipdb = db
+	m.lock.Unlock()
 	return err
 }
 
